@@ -31,7 +31,7 @@ def main():
     for f in kf:
         if f.get("status") == "fixed" and f.get("commit"):
             by_commit.setdefault(f["commit"][:7], set()).add(f["property"])
-    results = {}
+    results = json.load(open("/verif/seeded/REVERTS.json")) if only and os.path.exists("/verif/seeded/REVERTS.json") else {}
     for c, subject in fixes:
         if only and c not in only: continue
         props = sorted(by_commit.get(c[:7], []))
@@ -39,9 +39,26 @@ def main():
         r = sh(f"git -C {REPO} show {c} -- src | git -C {REPO} apply -R --3way -")
         if r.returncode != 0:
             r = sh(f"git -C {REPO} show {c} -- src | git -C {REPO} apply -R -")
+        also = []
+        if r.returncode != 0:
+            # a later fix edits the same lines: reverse-apply the later fix: commits (newest first) that
+            # touch the same files until this one applies as well
+            files = set(sh(f"git -C /repo show --format= --name-only {c} -- src").stdout.split())
+            sh(f"git -C {REPO} reset -q --hard HEAD")
+            for c2, _ in fixes:
+                if c2 == c: break
+                f2 = set(sh(f"git -C /repo show --format= --name-only {c2} -- src").stdout.split())
+                if not (files & f2): continue
+                r2 = sh(f"git -C {REPO} show {c2} -- src | git -C {REPO} apply -R -")
+                if r2.returncode == 0:
+                    also.append(c2)
+                    r = sh(f"git -C {REPO} show {c} -- src | git -C {REPO} apply -R -")
+                    if r.returncode == 0: break
         if r.returncode != 0:
             results[c] = {"subject": subject, "status": "revert does not apply (later fixes edit the same lines)", "checks": props}
             print(c, "REVERT DOES NOT APPLY", flush=True); continue
+        if also:
+            props = sorted(set(props) | {p for a in also for p in by_commit.get(a[:7], [])})
         b = subprocess.run("cargo build --release --offline", shell=True, cwd=HARN, env=ENV, capture_output=True, text=True)
         if b.returncode != 0:
             results[c] = {"subject": subject, "status": "reverted tree does not build with the harness", "checks": props}
@@ -51,7 +68,7 @@ def main():
             r = subprocess.run([f"{HARN}/target/release/verif-engine", p, "--tier", "quick"], text=True, capture_output=True, env=dict(ENV, VERIF_SEED="0"), cwd=HARN)
             why = [l for l in r.stdout.splitlines() if l.startswith("violation:") or l.startswith("regression case")]
             det[p] = {"exit": r.returncode, "why": (why[0][:240] if why else "")}
-        results[c] = {"subject": subject, "status": "ok", "checks": det}
+        results[c] = {"subject": subject, "status": "ok" if not also else f"reverted together with {also}", "checks": det}
         print(c, subject[:60], {p: v["exit"] for p, v in det.items()}, flush=True)
         json.dump(results, open("/verif/seeded/REVERTS.json", "w"), indent=1, sort_keys=True)
     sh(f"git -C /repo worktree remove --force {REPO}")
